@@ -2,22 +2,60 @@ from driver import Job
 
 SPEC = {
     "engine": "E1", "level": "fault_enumeration",
-    "technique": "crash-injecting database wrapper enumerating logical write indices; restart through the node's start-up sequence; differential comparison with a never-crashed node",
+    "technique": "crash-injecting database wrapper enumerating logical write indices; restart through the node's start-up sequence; differential comparison with a never-crashed node; "
+                 "the same injector under the REAL protocol.fastSync driven over two real gossip handlers (header phase, resumed sync, snapshot import, switch, background clean-up), "
+                 "write phases read off the call stack of each write, the restarted node completing by the real resume path",
     "level_text": "For block insertions of every kind (plain, empty, identity-update, snapshot, validation-finished, contract, with version "
-                  "pruning past 100 retained states) for fork switches (ResetTo + ApplyFork) and for the final phase of a fast sync (snapshot import, forced identity version, AtomicSwitchToPreliminary), the node's database is a wrapper that "
+                  "pruning past 100 retained states) for fork switches (ResetTo + ApplyFork) and for the final phase of a fast sync (snapshot import, forced identity version, AtomicSwitchToPreliminary "
+                  "and the clean-up of the replaced databases it starts), the node's database is a wrapper that "
                   "drops the k-th durable write and everything after it (batches atomic). For every k (thorough) or a stratified subset "
                   "incl. all phase boundaries (quick) the surviving database is restarted with the start-up sequence of node.StartWithHeight: "
                   "it must succeed, head roots must equal the loaded state, the head must be the interrupted height or a retained one below, "
-                  "and the restarted node must accept the interrupted and the following blocks and end byte-identical to a never-crashed node.",
-    "level_note": "assumes prefix durability, atomic batches, no torn single writes; node.StartWithHeight is mirrored, not executed; fast sync is emulated by calling fast.go's functions in fast.go's order (verifsim/fastsync.go)",
-    "rule": "case = one crash point (scenario, block, write index k) followed by restart + re-feed; distinct_nontrivial = distinct (scenario, phase, write index, block) tuples",
-    "jobs": [Job("crash", "verifsim", "^TestVerifC09$", shards=(8, 16), timeout=(900, 3600))],
+                  "and the restarted node must accept the interrupted and the following blocks and end byte-identical to a never-crashed node. "
+                  "Job 'realsync-crash': the same injector is the database of a fresh or prefix-synced node (the prefix full-synced from genesis, or reached by an earlier complete fast sync plus full sync) that runs the real fastSync object (preConsuming -> CreatePreliminaryCopy / LoadPreliminary, "
+                  "processBatch -> validateHeader / applyDeferredBlocks: CommitTree of the preliminary identity tree, AddHeaderUnsafe, WriteIdentityStateDiff, WriteCertificate, tx index / receipts; "
+                  "a sync interrupted and resumed by a second applier; postConsuming -> DownloadSnapshot, RecoverSnapshot2, SaveForcedVersion, AtomicSwitchToPreliminary and its clean-up goroutine), "
+                  "fed through the real wire path by a real server handler (all certificates, or certificates kept as a consensus follower keeps them so that headers are applied in deferred groups). "
+                  "Per plan one never-crashed run records class and phase (from the call stack) of every write; crash points are every write of the short phases (download, import, forced version, switch), "
+                  "both sides of every phase boundary, every distinct (phase, class before, class) transition, a few clean-up deletes and PRNG-chosen others (60 per plan quick, 150 thorough). After each crash: "
+                  "start-up on the surviving database neither fails nor panics, head roots equal the loaded roots, the head is the canonical block at the snapshot height or at the pre-sync height (or a retained "
+                  "height below); then the node completes - 3 of 4 times by resuming the real fast sync with a new handler and applier (the real preConsuming continues from the preliminary head or drops the "
+                  "preliminaries; a failed Load is followed by a second one as in Downloader.SyncBlockchain), otherwise by full-syncing the canonical blocks -, accepts the following canonical blocks and "
+                  "ends with the head hash and the full contents of both trees of the never-crashed node of the same kind.",
+    "level_note": "assumes prefix durability, atomic batches, no torn single writes; node.StartWithHeight is mirrored, not executed; in job 'crash' fast sync is emulated by calling fast.go's functions in fast.go's order "
+                  "(verifsim/fastsync.go); in job 'realsync-crash' the fast sync is real, mirrored are the batch-cutting loop of Downloader.Load, manifest gossip (the manifest is built from the server's own WriteSnapshot2 "
+                  "export), the libp2p host / connection / stream (in-memory fakes) and the full-sync alternative after the restart (blocks handed to Blockchain.AddBlock). dropPreliminaries is not reached by any crash point "
+                  "(no crash of the unchanged sequence leaves a preliminary head whose tree LoadPreliminary cannot load), so its writes are not crashed. A never-crashed real sync that fails gives 'inconclusive' here "
+                  "(C11 decides about refused syncs).",
+    "rule": "case = one crash point (scenario, block, write index k) followed by restart + re-feed; distinct_nontrivial = distinct (scenario, phase, write index, block) tuples; "
+            "job realsync-crash: case = one crash point (plan, write index k) of a real fast sync followed by restart + completion + comparison; distinct = distinct (world, plan, phase, write class, k)",
+    "jobs": [Job("crash", "verifsim", "^TestVerifC09$", shards=(8, 16), timeout=(900, 3600)),
+             Job("realsync-crash", "protocol", "^TestVerifC09RealFastSync$", shards=(8, 12), timeout=(900, 5400), extra_tags="c09")],
     "floors": {"crash_points": (800, 8000), "phase:batch:stateTree": 100, "phase:batch:identityTree": 100, "phase:set:head": 60,
                "phase:set:header-or-canonical": 100, "phase:set:txIndex": 30, "scenario:ForkSwitch(ResetTo+ApplyFork)": 100,
                "scenario:AddBlock(validation-finished)": 10, "scenario:AddBlock(identity-update)": 20, "scenario:AddBlock(snapshot)": 20,
                "scenario:AddBlock(plain+pruning)": 20, "clean_restarts": 50,
-               "scenario:FastSyncFinish(RecoverSnapshot2+SaveForcedVersion+AtomicSwitchToPreliminary)": 10},
+               "scenario:FastSyncFinish(RecoverSnapshot2+SaveForcedVersion+AtomicSwitchToPreliminary)": 10,
+               # job realsync-crash (real protocol.fastSync on the crash injector)
+               "real_sync_plans": (16, 60), "real_sync_plans:fresh-node": (4, 15), "real_sync_plans:prefix-synced-node": (8, 30),
+               "real_sync_plans:interrupted-and-resumed": (4, 15), "real_sync_plans:node-fast-synced-before": (1, 4), "real_sync_plans:sparse-cert-server": (4, 15), "real_sync_plans:straight-server": (4, 15),
+               "real_sync_crash_points": (900, 9000), "real_sync_restarts_after_crash": (900, 9000),
+               "real_sync_crash_phase:preliminary-copy": (100, 1000), "real_sync_crash_phase:headers": (300, 3000), "real_sync_crash_phase:headers-resumed": (60, 600),
+               "real_sync_crash_phase:snapshot-download": (12, 50), "real_sync_crash_phase:snapshot-import": (12, 50), "real_sync_crash_phase:forced-identity-version": (12, 50),
+               "real_sync_crash_phase:switch": (12, 50), "real_sync_crash_phase:switch-cleanup": (120, 800),
+               "real_sync_crash_class:set:preliminaryHead": (30, 300), "real_sync_crash_class:set:header-or-canonical": (100, 1000), "real_sync_crash_class:batch:identityTree": (60, 500),
+               "real_sync_crash_class:set:identityDiff": (12, 120), "real_sync_crash_class:set:certificate": (50, 500), "real_sync_crash_class:set:txIndex": (30, 300),
+               "real_sync_crash_class:set:ownTxIndex": (20, 200), "real_sync_crash_class:set:receiptIndex": (10, 50), "real_sync_crash_class:set:snapshotManifest": (12, 50),
+               "real_sync_crash_class:set:identityTree": (100, 1000), "real_sync_crash_class:batch:preliminaryIdentityTree": (12, 50),
+               "real_sync_crash_class:delete:identityTree": (20, 150), "real_sync_crash_class:delete:stateTree": (80, 500),
+               "real_sync_restarted_at:pre-sync-head": (600, 6000), "real_sync_restarted_at:snapshot-height": (120, 800),
+               "real_sync_restarts_with_preliminary_head": (400, 4000), "real_sync_restarts_with_preliminary_head_at_manifest_height": (50, 300),
+               "real_sync_resumed_after_crash": (450, 4500), "real_sync_resumed_from_preliminary_head_after_crash": (300, 3000),
+               "real_sync_full_synced_after_crash": (120, 1200), "real_sync_completions_compared_with_reference": (900, 9000),
+               "real_sync_following_blocks_accepted_after_crash": (10000, 100000)},
     "exhaustive": lambda tier: False,
     "parallel": 16,
-    "assumptions": ["prefix durability (no reordering of acknowledged writes)", "atomic batches", "no torn single writes", "consensus config V12"],
+    "assumptions": ["prefix durability (no reordering of acknowledged writes)", "atomic batches", "no torn single writes", "consensus config V12",
+                    "job realsync-crash: wall-clock timeouts of the real code (20 s per block in processBatch, 20 s handshake) that expire without a preceding refusal by the node give an "
+                    "inconclusive result, not a violation; the database dies for every goroutine at once (a crash on a write of the clean-up goroutine ends that goroutine, later writes of all goroutines are dropped)"],
 }
